@@ -134,7 +134,8 @@ prop(
 
 prop(
     "C10", level="other", selftest=["series", "block_diagonalization"],
-    rules=[e4.rule_no_inplace_mutation, e4.rule_closure_state, e3.rule_memo_owner, e3.rule_typestate],
+    rules=[e4.rule_no_inplace_mutation, e4.rule_closure_state, e3.rule_memo_owner, e3.rule_typestate,
+           e7.rule_shared_eigenvalue_check],
     explanation=(
         "Structural cause of history independence: evals are pure and the memo is disciplined. Flow-sensitive "
         "freshness analysis over every function of the evaluation modules (in-place sinks: augmented assignment, item "
